@@ -2,15 +2,16 @@
 # Build everything the checks need, offline, from files on disk only.  Everything lives under /verif/.cache.
 set -e
 cd "$(dirname "$0")"
+V="$(pwd)"
 export CARGO_NET_OFFLINE=true
 mkdir -p .cache evidence replays
 python3-vt -c "import z3; assert z3.get_version_string()" 
 command -v kissat >/dev/null
 # replay driver against the current /repo working tree (dev + release)
-( cd replay && CARGO_TARGET_DIR=/verif/.cache/replay-target cargo build --offline -q && CARGO_TARGET_DIR=/verif/.cache/replay-target cargo build --offline -q --release )
+( cd replay && CARGO_TARGET_DIR=$V/.cache/replay-target cargo build --offline -q && CARGO_TARGET_DIR=$V/.cache/replay-target cargo build --offline -q --release )
 # nightly MIR dumps (warms the dependency cache of the private target dir)
 python3-vt -c "
-import sys; sys.path.insert(0,'/verif')
+import sys, os; sys.path.insert(0, os.getcwd())
 from mirsym import dump
 for t in ('lib','rsbdd','random_graph_gen'):
     text, info = dump.get_mir(t); print(t, info, len(text))
